@@ -49,6 +49,8 @@ ASSUMPTIONS = [
     "the default multiplier is inferred from the drawn extent (nearest power of 1000) and must then be consistent for "
     "extent, positions and both axis labels",
     "contour plots need >= 2 cells per axis (matplotlib's own requirement); such geometries are skipped for contour",
+    "the colour wheel of lightness plots is a decoration in an inset axes and is switched off except for one thorough "
+    "choice; colour bars, clim / symmetric_clim, figure size and file output are not examined",
 ]
 
 # ---------------------------------------------------------------------------
@@ -710,6 +712,7 @@ def unit_call(ctx):
     layout = ctx.choose("layout", layouts)
     vkind = ctx.choose("valid", ["coded", "all"])
     mult = ctx.choose("multiplier", MULTS[:4] if quick else MULTS)
+    own = ctx.choose("axes", ["given", "created-by-the-plot"])
     geom = Geom(gname)
     valid = _validity(geom.n, vkind)
     f, inplane = make_field(geom, layout, valid, ctx.seed)
@@ -718,10 +721,16 @@ def unit_call(ctx):
     kw = {} if mult is None else {"multiplier": mult}
     inst = ctx.key()
     site = "mpl.__call__"
-    fig, ax = new_axes()
+    plt.close("all")
+    if own == "given":
+        fig, ax = new_axes()
     try:
         ctx.step(1, f"mpl({', '.join(kw)}) layout={layout}")
-        f.mpl(ax=ax, **kw)
+        if own == "given":
+            f.mpl(ax=ax, **kw)
+        else:
+            f.mpl(figsize=(3, 2.5), **kw)
+            ax = plt.gcf().axes[0]
         exp3 = None
         m = None
         if f.nvdim in (1, 3):
